@@ -129,7 +129,7 @@ def run_case(case):
     genargs.run_prior(case.get('prior'))
     # 1. the legal vector is accepted
     nested = v['seed'] % 2 == 1
-    outdir = genargs.fresh_outdir('legal', nested)
+    outdir = genargs.fresh_outdir('legal', nested, style=(v['seed'] // 2) % 5)
     argv = genargs.build_argv(v, outdir)
     status, code, err = genargs.run_generator(argv, v['seed'])
     if status != 'ok':
@@ -140,7 +140,7 @@ def run_case(case):
     classes = set()
     n = 0
     for name, w in perturbations(v):
-        outdir = genargs.fresh_outdir('pert', nested)
+        outdir = genargs.fresh_outdir('pert', nested, style=(v['seed'] // 2) % 5)
         argv = _argv(w, outdir)
         status, code, err = genargs.run_generator(argv, v['seed'])
         n += 1
